@@ -67,6 +67,15 @@ Proof.
   - destruct Ht as [-> | ->]; (split; [unfold u64; split; [vm_compute; discriminate|vm_compute; reflexivity]|vm_compute; reflexivity]).
 Qed.
 
+(* the repaired writer: whatever it accepts for a fixed-weight variant reads back exactly *)
+Lemma dist_write_fixed_roundtrip (t p w : Z) :
+  dist_is_fixed t = true -> 0 <= p -> dist_write_fixed t p = Some w -> u64 w /\ dist_decode w = Some (t, p).
+Proof.
+  intros Ht Hp. unfold dist_write_fixed. rewrite Ht. cbn [andb].
+  destruct (2 ^ 56 <=? p) eqn:E; [discriminate|]. apply Z.leb_gt in E.
+  intros H; inversion H; subst. apply dist_word_spec. right; left. split; [exact Ht|lia].
+Qed.
+
 (* what the format loses (documented in dist.rs): both are round-trip failures *)
 Lemma dist_roundtrip_refuted_low8bits :
   dist_decode (dist_word 1 4602678819172646913) = Some (1, 4602678819172646912).   (* 0.5 + 1 ulp  ->  0.5 *)
